@@ -460,6 +460,13 @@ func argIndexLERec(e *Env, v ssa.Value, depth int) (LE, bool) {
 		if w, we := e.ctorField(u); w != nil {
 			return argIndexLERec(we, w, depth+1) // a field of a parameter object filled by its constructor
 		}
+		if sv, _ := wholeStructForward(u); sv != nil {
+			if fa, ok := u.X.(*ssa.FieldAddr); ok {
+				if w, we := e.structField(sv, fa.Field, 0); w != nil {
+					return argIndexLERec(we, w, depth+1) // a field of a struct value handed back by a helper
+				}
+			}
+		}
 		v = u.X
 	}
 	switch x := v.(type) {
@@ -473,6 +480,10 @@ func argIndexLERec(e *Env, v ssa.Value, depth int) (LE, bool) {
 			if bt := be.Term(base); strings.HasSuffix(bt, ".VMInput.Arguments") || bt == "P:args" {
 				return off.plus(e.LE(x.Index)), true
 			}
+		}
+	case *ssa.Field:
+		if w, we := e.structField(x.X, x.Field, 0); w != nil {
+			return argIndexLERec(we, w, depth+1)
 		}
 	case *ssa.Parameter:
 		if a, pe := e.actual(x); a != nil {
